@@ -31,11 +31,9 @@ def makeSincs [STrig σ] (npoints factor : Nat) (fcut : ρ) (w : Window) : Array
 
 /-- `make_interpolator`: length rounded up to a multiple of 8 through `f32`,
 cutoff scaled by the ratio (in `f32`) when downsampling -/
-def interpLen (sincLen : Nat) : Nat :=
-  8 * RNum.toNat (RNum.ceil (RNum.div32 (RNum.ofNat32 (ρ := ρ) sincLen) (RNum.ofNat32 8)))
+def interpLen (sincLen : Nat) : Nat := Formulas.mkInterp_sinc_len (ρ := ρ) sincLen
 
-def interpCutoff (fcut ratio : ρ) : ρ :=
-  if RNum.ge ratio RNum.one then fcut else RNum.mul32 fcut (RNum.n32 ratio)
+def interpCutoff (fcut ratio : ρ) : ρ := Formulas.mkInterp_f_cutoff ratio fcut
 
 /-- scalar kernel: eight interleaved accumulators, summed left to right at the end -/
 def scalarDot (sincs : Array (Array σ)) (wave : Array σ) (index sub : Nat) : σ :=
